@@ -342,8 +342,11 @@ def main(argv=None):
             if h.core or j.state == 'vacuous':
                 machinery.append((j, j.detail))
 
+    seen = {}
     for j, k in findings:
-        log(f"KNOWN-FINDING: property={prop} {k['what']} [harness {j.h.name}, replay {j.replay['path']}]")
+        seen.setdefault(k['id'], (k, []))[1].append(j)
+    for kid, (k, js) in seen.items():
+        log(f"KNOWN-FINDING: property={prop} {k['what']} [{kid}; reproduced natively by {len(js)} harness(es), e.g. {js[0].h.name}, replay {js[0].replay['path']}]")
     for j in violations:
         log(f"VIOLATION property={prop} replay={j.replay['path']}")
         log(f"  harness={j.h.name} mode={j.h.mode} inst={j.h.inst} :: {j.detail[:300]}")
